@@ -406,6 +406,28 @@ theorem C20_lookup_pure {Ty : Type} [DecidableEq Ty] (tf : Ty → TypeCache.Fiel
     (tn : String) : TypeCache.findField v tn = TypeCache.findField (tf t) tn := by
   rw [(C20_cache_pure tf h).2 tid t v hp]
 
+/-- the encoder's memo `zeroNeverEnds` (Load / compute with per-call state / Store): under every interleaving each
+entry and each answer returned is the pure function of the type — the table never holds a provisional value,
+because the only write of the step relation is the final answer -/
+theorem C20_zero_memo_pure {Ty F : Type} [DecidableEq Ty] (tf : Ty → F) {s : TypeCache.State Ty F}
+    (h : TypeCache.ReachableOw tf s) :
+    (∀ t v, s.cache t = some v → v = tf t) ∧
+    (∀ tid t v, s.pc tid = .idle (some (t, v)) → v = tf t) :=
+  ⟨(GoMC.Lemmas.TypeCache.InvOw_reachable h).entries, (GoMC.Lemmas.TypeCache.InvOw_reachable h).returned⟩
+
+/-- two threads compute the answer for the same cold type and both store it: same value, both return it -/
+example : ∃ s, TypeCache.ReachableOw (fun n : Nat => n % 2 == 1) s ∧ s.cache 3 = some true ∧
+    s.pc 0 = .idle (some (3, true)) ∧ s.pc 1 = .idle (some (3, true)) := by
+  have s1 := TypeCache.ReachableOw.step (tf := fun n : Nat => n % 2 == 1) (.start 0 3) .init rfl
+  have s2 := TypeCache.ReachableOw.step (.start 1 3) s1 rfl
+  have s3 := TypeCache.ReachableOw.step (.run 0) s2 rfl
+  have s4 := TypeCache.ReachableOw.step (.run 1) s3 rfl
+  have s5 := TypeCache.ReachableOw.step (.run 0) s4 rfl
+  have s6 := TypeCache.ReachableOw.step (.run 1) s5 rfl
+  have s7 := TypeCache.ReachableOw.step (.run 1) s6 rfl
+  have s8 := TypeCache.ReachableOw.step (.run 0) s7 rfl
+  exact ⟨_, s8, rfl, rfl, rfl⟩
+
 /-- two threads race on a cold entry: both compute, the second `LoadOrStore` keeps the first entry, both return it -/
 example : ∃ s, TypeCache.Reachable (fun n : Nat => n * 2) s ∧ s.cache 3 = some 6 ∧
     s.pc 0 = .idle (some (3, 6)) ∧ s.pc 1 = .idle (some (3, 6)) := by
